@@ -494,10 +494,16 @@ func (c *EvalCtx) evalBinary(n *ast.BinaryExpr) Val {
 		}
 		return scalar(BVBin(op, x.One(), cnt), x.Typ)
 	}
-	if x.Typ == nil && x.Lazy != nil && y.Typ == nil {
+	if (x.Typ == nil && x.Lazy != nil && y.Typ == nil) || (y.Typ == nil && y.Lazy != nil && x.Typ == nil) {
+		switch n.Op {
+		case token.ADD, token.SUB, token.MUL, token.AND, token.OR, token.XOR, token.AND_NOT, token.QUO, token.REM:
+			// still untyped: the type comes from the context
+			xv, yv, nn := x, y, n
+			return Val{Lazy: func(typ types.Type) Val {
+				return c.arith(nn, c.coerce(xv, typ), c.coerce(yv, typ))
+			}}
+		}
 		x = c.defaultType(x)
-	}
-	if y.Typ == nil && y.Lazy != nil && x.Typ == nil {
 		y = c.defaultType(y)
 	}
 	// untyped constant arithmetic
@@ -550,6 +556,12 @@ func (c *EvalCtx) evalBinary(n *ast.BinaryExpr) Val {
 	if y.Typ == nil {
 		y = c.coerce(y, x.Typ)
 	}
+	return c.arith(n, x, y)
+}
+
+// arith applies a binary operator to two typed operands.
+func (c *EvalCtx) arith(n *ast.BinaryExpr, x, y Val) Val {
+	boolT := types.Typ[types.Bool]
 	// equality on arbitrary values
 	if n.Op == token.EQL || n.Op == token.NEQ {
 		if len(x.T) != len(y.T) {
